@@ -29,7 +29,7 @@ now *observed* by the C17 model checker rather than read off the source. Three o
 repaired defects were pointed out by authors of seeded changes while they read the tree
 (cpukinds allocated count, `hwloc_distances_release_remove` on adopted topologies) or were
 exposed by an input added to catch a seeded change (`chain.xml`, the NO_MEMATTRS
-configuration); each was first reproduced by the strengthened check. Rounds 5 and 6 added five:
+configuration); each was first reproduced by the strengthened check. Rounds 5 and 6 added six:
 the maintenance steps skipped under NO_DISTANCES / NO_MEMATTRS / NO_CPUKINDS (`1bb0db3`,
 found when those flag variants joined C17's reader topologies), `hwloc_topology_refresh()`
 storing into an adopted read-only mapping (`ad448c7`, pointed out by the author of a seeded
@@ -40,7 +40,9 @@ previous session, seen as an alarm by `vp check`, triaged as a genuine defect); 
 `hwloc_bitmap_singlify_per_core()` doing nothing when Cores sit at several depths (found by C09's
 new depth-2 states); and a fifth, the built-in XML exporter ignoring the length given to
 `hwloc_export_obj_userdata()` (pointed out by the author of a round-6 change, reproduced once C05's
-userdata table had a slice shorter than its buffer).
+userdata table had a slice shorter than its buffer); and a sixth, `hwloc_topology_load()` returning with
+lazy refresh work pending when RESTRICT_TO_CPUBINDING / RESTRICT_TO_MEMBINDING made it restrict the
+topology (also pointed out by an author, reproduced by a new reader variant of C17).
 
 ### 8.1 Repaired (`fix:` commits, in the order they were found)
 
